@@ -111,5 +111,5 @@ def extra(tier, seed):
     out.append(run_native('C15:bounded:best-value-exactly-zero', 'c15_zero_best.py', [],
                           bound='3 histories on a model whose maximum log likelihood is exactly 0.0; file checked after every evaluation'))
     out.append(run_native('C15:bounded:iterations', 'c15_iterations.py', [tier, str(seed)],
-                          bound='see the harness bound string: all orderings of 3-4 points, non-finite points, optimiser runs, bootstrap, names, every kill point of the rewrite', timeout=1500))
+                          bound='see the harness bound string: all orderings of 3-4 points, non-finite points, optimiser runs, bootstrap (then an evaluation at a worse point), names, every kill point of the rewrite', timeout=1500))
     return out
